@@ -7,6 +7,7 @@ import shutil
 import warnings
 
 import numpy as np
+from pipefunc import Pipeline
 from pipefunc.map import load_outputs
 from pipefunc.map._storage_array._base import StorageBase
 
@@ -56,8 +57,22 @@ def run_case(case):  # noqa: C901, PLR0912
     spec, form, storage = case["spec"], case.get("form", "auto"), case.get("storage", "dict")
     out = []
     pred = predicates(spec)
+    if case.get("order"):
+        pred["listed"] = "not-in-dependency-order"
+    if case.get("default_root"):
+        pred["root_default"] = True
     try:
-        p = gen_map.build(spec)
+        if case.get("order"):
+            funcs = gen_map.build_funcs(spec)
+            with contextlib.redirect_stdout(io.StringIO()):
+                p = Pipeline([funcs[i] for i in case["order"]])
+        else:
+            p = gen_map.build(spec)
+        if case.get("default_root"):
+            # a mapped root that also has a (well-formed) default of ANOTHER size: the supplied value is what counts
+            r = case["default_root"]
+            with contextlib.redirect_stdout(io.StringIO()):
+                p.update_defaults({r: gen_map.make_inputs({**spec, "sizes": SIZES2}, "list")[r]})
     except Exception as e:  # noqa: BLE001
         return [(findings.exc_sig(e, phase="construct", **pred), f"Pipeline(...) refused a valid spec {[gen_map.spec_str(f) for f in spec['funcs']]}: {type(e).__name__}: {str(e)[:120]}")]
     # "reuse": a second map on the SAME Pipeline object with other input sizes (state kept between runs must not leak)
@@ -119,6 +134,11 @@ def cases_for(spec, tier):
     n = len(spec["funcs"])
     has_r1 = any(len(a) == 1 for a in spec["roots"].values())
     yield {"spec": spec, "form": "list", "storage": "dict"}
+    if n == 2:
+        yield {"spec": spec, "form": "list", "storage": "dict", "order": [1, 0]}  # consumer listed before its producer
+    mapped_roots = [r for r, axes in spec["roots"].items() if axes]
+    if mapped_roots and (n == 1 or len(spec["funcs"][1]["params"]) == 1):
+        yield {"spec": spec, "form": "list", "storage": "dict", "default_root": mapped_roots[-1]}
     if len(spec["funcs"][0]["internal"]) == 2 and n == 2:
         yield {"spec": spec, "form": "ndarray", "storage": "file_array", "folder": True}
         return
@@ -183,13 +203,18 @@ def cases_of_stage(stage, spec, tier):
         first = ",".join(spec["funcs"][0]["outs"])
         yield {"spec": spec, "form": "list", "storage": "dict"}
         yield {"spec": spec, "form": "list", "storage": "dict", "reuse": True}
+        yield {"spec": spec, "form": "list", "storage": "dict", "order": [1, 0]}
         yield {"spec": spec, "form": "ndarray", "storage": "file_array", "folder": True}
         yield {"spec": spec, "form": "list", "storage": {first: "file_array", "": "dict"}, "folder": True}
         yield {"spec": spec, "form": "list", "storage": {"c": "file_array", "": "shared_memory_dict"}, "folder": True}
     elif stage in ("2-internal-axes-all-roots", "rank3-and-2D-zip-roots"):
         yield {"spec": spec, "form": "list", "storage": "dict"}
         yield {"spec": spec, "form": "ndarray", "storage": "file_array", "folder": True}
-    elif stage in SIZE_VARIANTS or stage == "3-functions-chain":
+    elif stage == "3-functions-chain":
+        yield {"spec": spec, "form": "list", "storage": "dict"}
+        for order in ([2, 1, 0], [1, 2, 0], [0, 2, 1]):
+            yield {"spec": spec, "form": "list", "storage": "dict", "order": order}
+    elif stage in SIZE_VARIANTS:
         yield {"spec": spec, "form": "list", "storage": "dict"}
     else:
         yield from cases_for(spec, tier)
